@@ -294,14 +294,14 @@ func Scenarios() []scenario {
 	// error path (error values, messages, what they name) is shared code too
 	out = append(out, scenario{"reads-of-rejected-frames", func() ([]any, [][]thrOp) {
 		bad := [][]byte{
-			unhex("20050000027e00"),           // CONNACK, undefined property id
-			unhex("3006000174020102"),         // PUBLISH, boolean property 2
-			unhex("400100"),                   // PUBACK cut inside the packet id
-			unhex("2008000005808080800100"),   // CONNACK, five-byte property length
-			unhex("300b00017400058080808001"), // PUBLISH, five-byte property length
-			unhex("8206000100000561"),         // SUBSCRIBE, filter cut
-			unhex("e0050004110000"),           // DISCONNECT, session expiry cut
-			unhex("c08080808000"),             // PINGREQ, five-byte remaining length
+			unhex("20050000027e00"),         // CONNACK, undefined property id
+			unhex("3006000174020102"),       // PUBLISH, boolean property 2
+			unhex("400100"),                 // PUBACK cut inside the packet id
+			unhex("2008000005808080800100"), // CONNACK, five-byte property length
+			unhex("30080001748080808001"),   // PUBLISH, five-byte property length
+			unhex("8206000100000561"),       // SUBSCRIBE, filter cut
+			unhex("e0050004110000"),         // DISCONNECT, session expiry cut
+			unhex("c08080808000"),           // PINGREQ, five-byte remaining length
 		}
 		var a, b []thrOp
 		for i, f := range bad {
